@@ -483,7 +483,7 @@ func TestDemoF18DeafClientOnStraySession(t *testing.T) {
 	}
 }
 
-// F13 (open finding): the TLS upgrade ignores cancellation and falls back to a 30 s deadline.
+// F13 (fixed by 68e44e4): the TLS upgrade ignored cancellation and fell back to a 30 s deadline.
 func TestDemoF13HandshakeIgnoresCancel(t *testing.T) {
 	addr := demoAddr(55413)
 	tc := make(chan Transport, 1)
